@@ -565,8 +565,12 @@ impl<'a, T: std::fmt::Debug> WaitingState<'a, T> {
         // occurred, this will remove all `Press` events and 2 `Release` events. This is done so
         // that the state machine processes the entire tap dance sequence as a single press and
         // single release regardless of how many taps were actually done.
+        // Only the presses that were counted into this dance are evicted: a press of the same key
+        // that arrives when the dance has already ended (timeout reached, or the action list is
+        // exhausted) starts a new dance and must stay in the queue.
         let evict_same_coord_events = |num_taps: u16, queued: &mut Queue| {
             let mut releases_to_remove = num_taps.saturating_sub(1);
+            let mut presses_to_remove = num_taps.saturating_sub(1);
             queued.retain(|s| {
                 let mut do_retain = true;
                 if self.is_corresponding_release(&s.event) {
@@ -574,8 +578,9 @@ impl<'a, T: std::fmt::Debug> WaitingState<'a, T> {
                         do_retain = false;
                         releases_to_remove = releases_to_remove.saturating_sub(1)
                     }
-                } else if self.is_corresponding_press(&s.event) {
+                } else if self.is_corresponding_press(&s.event) && presses_to_remove > 0 {
                     do_retain = false;
+                    presses_to_remove = presses_to_remove.saturating_sub(1)
                 }
                 do_retain
             });
@@ -596,11 +601,13 @@ impl<'a, T: std::fmt::Debug> WaitingState<'a, T> {
             }
         }) {
             Ok(num_taps) if usize::from(num_taps) >= max_taps => {
+                let num_taps = core::cmp::min(usize::from(num_taps), max_taps) as u16;
                 evict_same_coord_events(num_taps, queued);
                 (Some(WaitingAction::Tap), num_taps)
             }
             Ok(num_taps) => (None, num_taps),
             Err((num_taps, _)) => {
+                let num_taps = core::cmp::min(usize::from(num_taps), max_taps) as u16;
                 evict_same_coord_events(num_taps, queued);
                 (Some(WaitingAction::Tap), num_taps)
             }
